@@ -293,6 +293,10 @@ func DiffOutputs(desc sim.ModelDescription, a, b [][]float64, n int) string {
 func DrawCellCase(t *rapid.T, name string, minT, maxT int) CellCase {
 	cell := DrawCell(t, name)
 	T := rapid.IntRange(minT, maxT).Draw(t, "T")
+	if maxT >= 25 && rapid.IntRange(0, 399).Draw(t, "longSeries") == 211 {
+		// a series long enough to cross a block size inside one Run (kernels that work in chunks)
+		T = rapid.SampledFrom([]int{1023, 1025, 4095, 4096, 4097, 8193}).Draw(t, "longT")
+	}
 	return CellCase{Model: name, Cell: cell, Inputs: DrawInputs(t, name, cell, T), State: DrawStates(t, name, cell)}
 }
 
